@@ -432,7 +432,8 @@ def _realize_sobj(td: SObj, realm: Realm):
         ap_alias(M.CLASS_ALIASERS[td.class_aliaser])(cls)
     if td.cons:
         ap_schema(**dict(td.cons.kw))(cls)
-    if td.serializer is not None:
+    if td.serializer is not None and not (td.base and getattr(realm.descs.get(td.base), "serializer", None) == td.serializer):
+        # (the serializer of a base class is inherited, not registered again)
         serializer(conversion_object(td.serializer, realm))
     return cls
 
